@@ -82,7 +82,7 @@ class ExprMixin:
         out = []
         for cls, members in self.reg.enums.items():
             for m, v in members:
-                r = Val.r(self.enum_member(cls, m).t)
+                r = vr(self.enum_member(cls, m).t)
                 if isinstance(v, int):
                     out.append(z3.Select(st.field("value"), r) == IntV(v))
                 out.append(z3.Select(st.field("name"), r) == StrV(m))
@@ -92,44 +92,44 @@ class ExprMixin:
     def truth(self, st, v):
         """z3 Bool: Python truthiness of v"""
         t, ty = v.t, base_type(v.ty)
-        if ty == "bool": return Val.b(t)
-        if ty == "int": return Val.i(t) != 0
-        if ty == "str": return z3.Length(Val.s(t)) > 0
+        if ty == "bool": return vb(t)
+        if ty == "int": return vi(t) != 0
+        if ty == "str": return z3.Length(vs(t)) > 0
         if ty == "none": return z3.BoolVal(False)
         if ty in ("list", "set", "tuple"): return z3.Length(self.elems(st, v)) > 0
         if ty == "dict": return z3.Length(self.dkeys(st, v)) > 0
         if ty in self.reg.classes or ty == "Path":
             return z3.Not(Val.is_NoneV(t)) if True else None
         cont = self.container_tags()
-        cl = z3.Select(st.field("$class"), Val.r(t))
-        return z3.If(Val.is_BoolV(t), Val.b(t),
-               z3.If(Val.is_IntV(t), Val.i(t) != 0,
-               z3.If(Val.is_StrV(t), z3.Length(Val.s(t)) > 0,
+        cl = z3.Select(st.field("$class"), vr(t))
+        return z3.If(Val.is_BoolV(t), vb(t),
+               z3.If(Val.is_IntV(t), vi(t) != 0,
+               z3.If(Val.is_StrV(t), z3.Length(vs(t)) > 0,
                z3.If(Val.is_NoneV(t), False,
-               z3.If(Val.is_BytesV(t), z3.Length(Val.bs(t)) > 0,
-               z3.If(Val.is_FloatV(t), Val.f(t) != 0,
+               z3.If(Val.is_BytesV(t), z3.Length(vbs(t)) > 0,
+               z3.If(Val.is_FloatV(t), vf(t) != 0,
                z3.If(z3.And(Val.is_RefV(t), z3.Or(cl == cont["list"], cl == cont["set"], cl == cont["tuple"])),
-                     z3.Length(z3.Select(st.field("$elems"), Val.r(t))) > 0,
+                     z3.Length(z3.Select(st.field("$elems"), vr(t))) > 0,
                z3.If(z3.And(Val.is_RefV(t), cl == cont["dict"]),
-                     z3.Length(z3.Select(st.field("$dkeys"), Val.r(t))) > 0, True))))))))
+                     z3.Length(z3.Select(st.field("$dkeys"), vr(t))) > 0, True))))))))
 
     def container_tags(self):
         return {k: self.reg.classtag(k) for k in CONTAINER}
 
     def elems(self, st, v):
-        return st.read("$elems", Val.r(v.t))
+        return st.read("$elems", vr(v.t))
 
     def dkeys(self, st, v):
-        return st.read("$dkeys", Val.r(v.t))
+        return st.read("$dkeys", vr(v.t))
 
     def dhas(self, st, d, key_t):
         """z3 Bool: key in dict d"""
-        return z3.Select(st.read("$dhas", Val.r(d.t)), key_t)
+        return z3.Select(st.read("$dhas", vr(d.t)), key_t)
 
     def dict_link(self, st, d):
         """relate the iteration sequence of dict d to its membership array (assumed representation fact):
         the keys enumerated are exactly the members, without repetition"""
-        keys, has = self.dkeys(st, d), st.read("$dhas", Val.r(d.t))
+        keys, has = self.dkeys(st, d), st.read("$dhas", vr(d.t))
         j, j2 = fresh_int("j"), fresh_int("j")
         kv = fresh_val("lk")
         idx = z3.Function(fresh_name("kidx"), Val, Int)
@@ -154,7 +154,7 @@ class ExprMixin:
             self._gf_ids.add(f.get_id()); self.global_facts.append(f)
 
     def dmap(self, st, v):
-        return st.read("$dmap", Val.r(v.t))
+        return st.read("$dmap", vr(v.t))
 
     def oblige(self, name, kind, goal, st, lineno=0, info=None):
         if self.spec_depth:
@@ -181,18 +181,18 @@ class ExprMixin:
 
     def old_object(self, st, t):
         """assume t (if a reference) was allocated before the function was entered"""
-        st.assume(z3.Implies(Val.is_RefV(t), Val.r(t) < self.frontier))
+        st.assume(z3.Implies(Val.is_RefV(t), vr(t) < self.frontier))
 
     def new_list(self, st, seq, ty="list"):
         v = self.alloc(st, base_type(ty), ty)
-        st.heap["$elems"] = z3.Store(st.field("$elems"), Val.r(v.t), seq)
+        st.heap["$elems"] = z3.Store(st.field("$elems"), vr(v.t), seq)
         return v
 
     def new_dict(self, st, keys, mp, ty="dict", has=None):
         v = self.alloc(st, "dict", ty)
-        st.heap["$dkeys"] = z3.Store(st.field("$dkeys"), Val.r(v.t), keys)
-        st.heap["$dhas"] = z3.Store(st.field("$dhas"), Val.r(v.t), has if has is not None else z3.K(Val, False))
-        st.heap["$dmap"] = z3.Store(st.field("$dmap"), Val.r(v.t), mp)
+        st.heap["$dkeys"] = z3.Store(st.field("$dkeys"), vr(v.t), keys)
+        st.heap["$dhas"] = z3.Store(st.field("$dhas"), vr(v.t), has if has is not None else z3.K(Val, False))
+        st.heap["$dmap"] = z3.Store(st.field("$dmap"), vr(v.t), mp)
         return v
 
     # ------------------------------------------------------------------ atoms
@@ -212,7 +212,10 @@ class ExprMixin:
             x = st.env[n.id]
             if isinstance(x, V):
                 return [Res(st, x)]
-            raise Unsupported(f"name {n.id} is a nested function used as a value (line {n.lineno})")
+            if isinstance(x, tuple):          # caught exception bound by `except E as e`
+                return [Res(st, V(z3.Const("exc_" + str(x[0]).replace(".", "_"), Val), "exc:" + str(x[0])))]
+            # nested function used as a value (callback registration): opaque
+            return [Res(st, V(z3.Const("closure_" + n.id, Val), "closure"))]
         if n.id in st.ghost:
             return [Res(st, st.ghost[n.id])]
         c = self.const_value(st, n.id)
@@ -221,6 +224,9 @@ class ExprMixin:
         raise Unsupported(f"unknown name {n.id} at line {getattr(n, 'lineno', '?')}")
 
     def ev_Attribute(self, st, n):
+        if isinstance(n.value, ast.Name) and isinstance(st.env.get(n.value.id), tuple) and n.attr == "code":
+            exc, val = st.env[n.value.id]       # SystemExit.code
+            return [Res(st, val if val is not None else V(fresh_val("code"), None))]
         d = self.dotted(n)
         if d is not None and d.split(".")[0] not in st.env:
             c = self.const_value(st, d)
@@ -260,7 +266,7 @@ class ExprMixin:
             raise Unsupported(f"attribute {ty}.{attr} not declared (line {lineno})")
         if obj.ty and obj.ty.startswith("opt:"):
             self.oblige(f"type-safety:not-None .{attr}@L{lineno}", "type-safety", Val.is_RefV(obj.t), st, lineno)
-        t = st.read(attr, Val.r(obj.t))
+        t = st.read(attr, vr(obj.t))
         v = V(t, ft, src=(obj, attr))
         self.typed(st, v)     # heap typing invariant: assumed on reads, checked on writes
         return [Res(st, v)]
@@ -275,7 +281,7 @@ class ExprMixin:
             return v
         n0 = len(st.pc)
         if st.front is not None:
-            st.assume(z3.Implies(Val.is_RefV(v.t), Val.r(v.t) < st.front))    # only allocated objects are stored in the heap
+            st.assume(z3.Implies(Val.is_RefV(v.t), vr(v.t) < st.front))    # only allocated objects are stored in the heap
         if v.ty is not None:
             self.assume_type(st, v)
         for f in st.pc[n0:]:
@@ -298,7 +304,7 @@ class ExprMixin:
         return out
 
     def path_attr(self, st, obj, attr):
-        p = Val.p(obj.t)
+        p = vp(obj.t)
         if attr == "parent": return V(Val.PathV(p_parent(p)), "Path")
         if attr == "name": return V(StrV(p_name(p)), "str")
         raise Unsupported(f"Path.{attr}")
@@ -358,10 +364,10 @@ class ExprMixin:
                 out.append(Res(r.st, V(BoolV(z3.Not(self.truth(r.st, r.val))), "bool")))
             elif isinstance(n.op, ast.USub):
                 if r.val.ty == "float":
-                    out.append(Res(r.st, V(Val.FloatV(-Val.f(r.val.t)), "float")))
+                    out.append(Res(r.st, V(Val.FloatV(-vf(r.val.t)), "float")))
                 else:
                     self.need_int(r.st, [r.val], n.lineno)
-                    out.append(Res(r.st, V(IntV(-Val.i(r.val.t)), "int")))
+                    out.append(Res(r.st, V(IntV(-vi(r.val.t)), "int")))
             else:
                 raise Unsupported(f"unary operator at line {n.lineno}")
         return out
@@ -379,14 +385,14 @@ class ExprMixin:
                 return self.call_function(st, k, [a, b], {}, lineno, recv_ty=ta)
         if isinstance(op, ast.Div) and ta == "Path":
             if tb == "str":
-                return [Res(st, V(Val.PathV(p_join(Val.p(a.t), Val.s(b.t))), "Path"))]
+                return [Res(st, V(Val.PathV(p_join(vp(a.t), vs(b.t))), "Path"))]
             if tb == "Path":
-                return [Res(st, V(Val.PathV(p_joinp(Val.p(a.t), Val.p(b.t))), "Path"))]
+                return [Res(st, V(Val.PathV(p_joinp(vp(a.t), vp(b.t))), "Path"))]
             raise Unsupported(f"Path / {tb} at line {lineno}")
         if isinstance(op, ast.Add) and ta == "str" and tb == "str":
-            return [Res(st, V(StrV(z3.Concat(Val.s(a.t), Val.s(b.t))), "str"))]
+            return [Res(st, V(StrV(z3.Concat(vs(a.t), vs(b.t))), "str"))]
         if isinstance(op, ast.Add) and ta == "bytes" and tb == "bytes":
-            return [Res(st, V(Val.BytesV(z3.Concat(Val.bs(a.t), Val.bs(b.t))), "bytes"))]
+            return [Res(st, V(Val.BytesV(z3.Concat(vbs(a.t), vbs(b.t))), "bytes"))]
         if isinstance(op, ast.Add) and ta in ("list", "tuple") and tb in ("list", "tuple"):
             s2 = st
             v = self.new_list(s2, z3.Concat(self.elems(s2, a), self.elems(s2, b)), a.ty)
@@ -394,13 +400,13 @@ class ExprMixin:
         if isinstance(op, ast.Mod) and ta == "str":
             return [Res(st, self.str_format(st, a, [b]))]
         if ta == "float" or tb == "float":
-            x = Val.f(a.t) if ta == "float" else z3.ToReal(Val.i(a.t))
-            y = Val.f(b.t) if tb == "float" else z3.ToReal(Val.i(b.t))
+            x = vf(a.t) if ta == "float" else z3.ToReal(vi(a.t))
+            y = vf(b.t) if tb == "float" else z3.ToReal(vi(b.t))
             r = {ast.Add: lambda: x + y, ast.Sub: lambda: x - y, ast.Mult: lambda: x * y}.get(type(op))
             if r is None: raise Unsupported(f"float operator at line {lineno}")
             return [Res(st, V(Val.FloatV(r()), "float"))]
         self.need_int(st, [a, b], lineno)
-        x, y = Val.i(a.t), Val.i(b.t)
+        x, y = vi(a.t), vi(b.t)
         if isinstance(op, ast.Add): v = x + y
         elif isinstance(op, ast.Sub): v = x - y
         elif isinstance(op, ast.Mult): v = x * y
@@ -411,7 +417,7 @@ class ExprMixin:
     def str_format(self, st, fmt, args):
         """'%' formatting and str.format: result is an uninterpreted string of (fmt, args) — only used for messages/names"""
         f = z3.Function(f"fmt{len(args)}", *([z3.StringSort()] + [Val] * len(args) + [z3.StringSort()]))
-        return V(StrV(f(Val.s(fmt.t), *[a.t for a in args])), "str")
+        return V(StrV(f(vs(fmt.t), *[a.t for a in args])), "str")
 
     def py_eq(self, st, a, b, lineno=0):
         """z3 Bool for Python a == b (value semantics for scalars/paths, identity for objects without __eq__)"""
@@ -453,19 +459,19 @@ class ExprMixin:
                 return self.call_function(st, k, [a, b], {}, lineno, recv_ty=ta)
             raise Unsupported(f"{dunder} on {ta} (line {lineno})")
         if ta == "float" or tb == "float":
-            x = Val.f(a.t) if ta == "float" else z3.ToReal(Val.i(a.t))
-            y = Val.f(b.t) if tb == "float" else z3.ToReal(Val.i(b.t))
+            x = vf(a.t) if ta == "float" else z3.ToReal(vi(a.t))
+            y = vf(b.t) if tb == "float" else z3.ToReal(vi(b.t))
         elif (ta is None and tb in ("int", None)) or (tb is None and ta == "int"):
             # statically untyped operand(s): int or float decided by the dynamic tag
             isnum = lambda v: z3.Or(Val.is_IntV(v.t), Val.is_FloatV(v.t))   # noqa
             self.oblige(f"type-safety:number@L{lineno}", "type-safety", z3.And(isnum(a), isnum(b)), st, lineno)
-            x = z3.If(Val.is_FloatV(a.t), Val.f(a.t), z3.ToReal(Val.i(a.t)))
-            y = z3.If(Val.is_FloatV(b.t), Val.f(b.t), z3.ToReal(Val.i(b.t)))
+            x = z3.If(Val.is_FloatV(a.t), vf(a.t), z3.ToReal(vi(a.t)))
+            y = z3.If(Val.is_FloatV(b.t), vf(b.t), z3.ToReal(vi(b.t)))
         elif ta == "bytes" and tb == "bytes":
             raise Unsupported("bytes ordering")
         else:
             self.need_int(st, [a, b], lineno)
-            x, y = Val.i(a.t), Val.i(b.t)
+            x, y = vi(a.t), vi(b.t)
         e = {ast.Lt: x < y, ast.LtE: x <= y, ast.Gt: x > y, ast.GtE: x >= y}[type(op)]
         return [Res(st, V(BoolV(e), "bool"))]
 
@@ -477,7 +483,7 @@ class ExprMixin:
             self.touch_key(st, item)
             return self.dhas(st, cont, item.t)
         if ty == "str":
-            return z3.Contains(Val.s(cont.t), Val.s(item.t))
+            return z3.Contains(vs(cont.t), vs(item.t))
         raise Unsupported(f"'in' on {cont.ty} at line {lineno}")
 
     def ev_JoinedStr(self, st, n):
@@ -497,12 +503,12 @@ class ExprMixin:
     def to_str(self, st, v):
         """z3 String for str(v)"""
         ty = base_type(v.ty)
-        if ty == "str": return Val.s(v.t)
-        if ty == "int": return str_of_int(Val.i(v.t))
-        if ty == "Path": return p_str(Val.p(v.t))
+        if ty == "str": return vs(v.t)
+        if ty == "int": return str_of_int(vi(v.t))
+        if ty == "Path": return p_str(vp(v.t))
         f = z3.Function("str_of_val", Val, z3.StringSort())
-        return z3.If(Val.is_StrV(v.t), Val.s(v.t), z3.If(Val.is_IntV(v.t), str_of_int(Val.i(v.t)),
-                     z3.If(Val.is_PathV(v.t), p_str(Val.p(v.t)), f(v.t))))
+        return z3.If(Val.is_StrV(v.t), vs(v.t), z3.If(Val.is_IntV(v.t), str_of_int(vi(v.t)),
+                     z3.If(Val.is_PathV(v.t), p_str(vp(v.t)), f(v.t))))
 
     def ev_Subscript(self, st, n):
         if isinstance(n.slice, ast.Slice):
@@ -514,7 +520,7 @@ class ExprMixin:
         if ty in ("list", "tuple"):
             self.need_int(st, [k], lineno)
             seq = self.elems(st, c)
-            i = Val.i(k.t)
+            i = vi(k.t)
             n = z3.Length(seq)
             idx = z3.If(i < 0, n + i, i)
             ok = st.copy(); ok.assume(z3.And(idx >= 0, idx < n))
@@ -551,7 +557,7 @@ class ExprMixin:
                 raise Unsupported(f"slice of {c.ty}")
             seq = self.elems(s, c); ln = z3.Length(seq)
             def norm(v):
-                i = Val.i(v.t)
+                i = vi(v.t)
                 j = z3.If(i < 0, ln + i, i)
                 return z3.If(j < 0, 0, z3.If(j > ln, ln, j))
             a = norm(vs[1]); b = norm(vs[2]) if len(vs) > 2 else ln
